@@ -152,3 +152,26 @@ def dfs_orders(scn, limit, run_kwargs=None):
             i, m = ch.choices[k]
             for alt in range(1, m):
                 stack.append([c[0] for c in ch.choices[:k]] + [alt])
+
+
+def msg_level_accept(scn, run, drv, res, case):
+    """message-level trace acceptance (Core/MsgFlatRun, Props/C08Msg / C08MsgRun): the order in which participants
+    subscribed and messages were delivered in this real run must be an execution of the message-level model, with the
+    same device updates.  Flat runs without stimuli under a bus that logs deliveries per topic; returns True if checked."""
+    try:
+        from tickit.utils.topic_naming import input_topic, output_topic
+        rq = model.msg_run_request(scn, run, input_topic, output_topic)
+    except Exception as e:   # noqa: BLE001
+        res.notes.append(f"message-level acceptor not applicable: {type(e).__name__}: {e}")
+        return False
+    if rq is None:
+        return False
+    rep = drv.eval([rq])[0]
+    res.traces_validated += 1
+    res.count("message-level-histories")
+    res.count("message-level-actions", len(rq["actions"]))
+    for d in model.compare_msg_run(run, rep):
+        at = (rep or {}).get("at")
+        ctx = rq["actions"][max(0, at - 3):at + 1] if isinstance(at, int) else None
+        res.diverge(d + (f" around {ctx}" if ctx else ""), case)
+    return True
